@@ -22,7 +22,8 @@ RULE = ("histories over the alphabet {set FC full|compact, produce FC full|compa
         "masses, dataset (type 1), generate_displacements, copy()} : ALL histories of length <= 2 (quick) / <= 3 (thorough) from three initial states "
         "(no NAC, Wang, Gonze-Lee) on small cells, plus random histories of length 4..8; queries after each history: eigenvalues at 3 q (Gamma with direction when NAC), "
         "D e = lambda e, group velocity, free energy on a mesh; oracle = fresh Phonopy built from the final state; aliasing probes for every array handed in or out; "
-        "non-trivial = history changes the spectrum w.r.t. the initial state or is an aliasing probe; distinct = (initial state, crystal, op sequence)")
+        "non-trivial = history changes the spectrum w.r.t. the initial state or is an aliasing probe; distinct = (initial state, crystal, op sequence); "
+        "additions of rounds 6-8: throw-away queries with unusual options before the deciding questions; which operation rewrote a caller's array is recorded after every operation; arrays handed out must survive replacing operations; one hand-in in three is a non-owning window of a larger buffer")
 ASSUMPTIONS = [
     "the reference is the real class freshly constructed from (unit cell, supercell/primitive matrices, final force constants, final NAC parameters, final masses)",
     "an operation that raises (e.g. produce_force_constants without forces) is recorded as an outcome and leaves the state to be judged as it is",
